@@ -177,6 +177,15 @@ func (f *file) Close() error {
 	return nil
 }
 
+// currentSize returns the file's size as it is now. A regular file's contents are loaded first, so the
+// (possibly shared) data is consulted rather than the size recorded when this handle was opened.
+func (f *file) currentSize() int64 {
+	if f.Mode().IsRegular() {
+		_, _ = f.Data()
+	}
+	return f.Size()
+}
+
 func (f *file) updateModTime() {
 	f.modTimeOverride = time.Now()
 }
@@ -202,10 +211,10 @@ func (f *file) ReadAt(p []byte, off int64) (n int, err error) {
 }
 
 func (f *file) ReadBlobAt(length int, off int64) (b blob.Blob, n int, err error) {
-	if off >= int64(f.Size()) {
+	max := f.currentSize()
+	if off >= max {
 		return nil, 0, io.EOF
 	}
-	max := int64(f.Size())
 	end := off + int64(length)
 	if end > max {
 		end = max
@@ -233,7 +242,7 @@ func (f *file) Seek(offset int64, whence int) (int64, error) {
 	case io.SeekCurrent:
 		newOffset += offset
 	case io.SeekEnd:
-		newOffset = int64(f.Size()) + offset
+		newOffset = f.currentSize() + offset
 	default:
 		return 0, &hackpadfs.PathError{Op: "seek", Path: f.path, Err: hackpadfs.ErrInvalid}
 	}
@@ -264,17 +273,18 @@ func (f *file) WriteBlobAt(p blob.Blob, off int64) (n int, err error) {
 }
 
 func (f *file) writeBlobAt(op string, p blob.Blob, off int64) (n int, err error) {
+	size := f.currentSize()
 	if f.flag&hackpadfs.FlagAppend != 0 {
-		off = int64(f.Size())
+		off = size
 	}
 
 	endIndex := off + int64(p.Len())
-	if int64(f.Size()) < endIndex {
+	if size < endIndex {
 		data, err := f.Data()
 		if err != nil {
 			return 0, &hackpadfs.PathError{Op: op, Path: f.path, Err: err}
 		}
-		err = blob.Grow(data, endIndex-int64(f.Size()))
+		err = blob.Grow(data, endIndex-size)
 		if err != nil {
 			return 0, &hackpadfs.PathError{Op: op, Path: f.path, Err: err}
 		}
@@ -295,6 +305,7 @@ func (f *file) writeBlobAt(op string, p blob.Blob, off int64) (n int, err error)
 }
 
 func (f *file) Stat() (hackpadfs.FileInfo, error) {
+	_ = f.currentSize() // report the current size, not the one recorded at open
 	return fileInfo{Record: &f.runOnceFileRecord, Path: f.path}, nil
 }
 
@@ -302,7 +313,7 @@ func (f *file) Truncate(size int64) error {
 	if f.Mode().IsDir() {
 		return &hackpadfs.PathError{Op: "truncate", Path: f.path, Err: hackpadfs.ErrIsDir}
 	}
-	length := int64(f.Size())
+	length := f.currentSize()
 	switch {
 	case size < 0:
 		return &hackpadfs.PathError{Op: "truncate", Path: f.path, Err: hackpadfs.ErrInvalid}
